@@ -34,9 +34,9 @@ func (p *Property) levelText() string {
 
 var properties = []Property{
 	P("C01", "SSA access-path provenance of the issuer context and of the signing data flow, dominance/guard queries, decision-table evaluation",
-		"where the issuer name, key bits and signing key of a certificate come from (one artifact lookup for the Issuer alias of the entity's own configuration; Subject, not Issuer); what is hashed, with which hash, signed with which key under which type guard (a key of the wrong kind returns an error); that hash, hash id, key kind and OID come from one table call and the table agrees with the RFCs; that key identifiers hash the right key bits with SHA-1; that issuers are planned and generated before their subjects, on one schedule.",
+		"where the issuer name, key bits and signing key of a certificate come from (one artifact lookup for the Issuer alias of the entity's own configuration; Subject, not Issuer); what is hashed, with which hash, signed with which key under which type guard (a key of the wrong kind returns an error); that hash, hash id, key kind and OID come from one table call and the table agrees with the RFCs; that key identifiers hash the right key bits with SHA-1; that issuers are planned and generated before their subjects, on one schedule; that an entity is re-issued whenever its issuer's artifact is newer than its own (any flag), so chains follow a replaced issuer.",
 		"that signatures verify (cryptography); brainpool/RSA arithmetic; DN bytes - known finding D21: the issuer DN is carried decoded and re-encoded, so byte identity with the issuer's subject is not guaranteed.",
-		"PROV-ISSUER", "PROV-SIGN", "PROV-KEYID", "TAB-SIGALG", "ORDER", "PROV-PLAN", "RAWDN"),
+		"PROV-ISSUER", "PROV-SIGN", "PROV-KEYID", "TAB-SIGALG", "ORDER", "PROV-PLAN", "RAWDN", "GUARD-UPDATE"),
 	P("C02", "ASN.1 tag/shape comparison of the marshalled struct types with RFC 5280, constant evaluation, SSA value-identity and guard analysis",
 		"the shape (field order, universal types, tags, EXPLICIT/OPTIONAL/DEFAULT) of the certificate types handed to encoding/asn1; the serial bound (<= 2^159) and version constant; that both signature AlgorithmIdentifiers get one Parameters value that is NULL exactly for RSA; UTC conversion of the validity; the SubjectPublicKeyInfo identifiers.",
 		"DER minimality of lengths/integers/times (encoding/asn1 is trusted for the shape it is given), the 'independent parser reads the same fields' clause, byte-exact round trips, the UTCTime/GeneralizedTime choice.",
@@ -86,9 +86,9 @@ var properties = []Property{
 		"that the re-serialised key is the same key (C17), anything across several runs.",
 		"PROV-KEY", "TOLERANT"),
 	P("C15", "error-propagation chain from os.WriteFile to the process exit status, tolerance of decode errors",
-		"one clause: a write error is returned through every function up to the CLI and ends the process with a non-zero status; plus the recovery precondition that an undecodable PEM does not abort the import and decoded parts are kept.",
+		"one clause: a write error is returned through every function up to the CLI and ends the process with a non-zero status; plus the recovery preconditions: an undecodable PEM does not abort the import and decoded parts are kept; the artifact's modification time is read from the file that was written; missing parts and a newer issuer artifact trigger regeneration under the default flags.",
 		"crash points, torn writes and recovery across runs (run-time histories).",
-		"ERR-CHAIN-WRITE", "TOLERANT"),
+		"ERR-CHAIN-WRITE", "TOLERANT", "GUARD-UPDATE", "PROV-META"),
 	P("C16", "table evaluation, ASN.1 shape comparison, coverage of partial marshalling ranges, wiring table, reuse lint",
 		"the general-name kinds of authority names, the tags and string kinds of NamingAuthority / Admissions / ProfessionInfo against Common PKI, that the hand-written marshal methods cover every field once in order, the explicit [0] wrapper, that every YAML admission field reaches its structure field from the right list element, and that slices handed on are not reused.",
 		"the assembled TLV bytes.",
